@@ -141,18 +141,22 @@ def runLines (W : World) (s : ReplState W.NS) : List String â†’ ReplState W.NS Ã
 /-! ## Expression statements in interactive mode -/
 
 /-- vm/eval.go do_PRINT_EXPR -/
-def doPrintExpr (funs : List FunDef) (value : Val) (g : List (String Ã— Val)) : List (String Ã— Val) Ã— List Out :=
-  if value = Val.none then (g, [])
+def doPrintExpr (funs : List FunDef) (value : Val) (g : List (String Ã— Val)) : List (String Ã— Val) Ã— List Out Ã— Option String :=
+  if value = Val.none then (g, [], none)
   else
     let g := setVar g "_" .none
-    let r := reprVal funs value
-    (setVar g "_" value, [.echo r])
+    -- `repr, err := py.Repr(value); if err != nil { return err }`
+    match reprErr value with
+    | some c => (g, [], some c)
+    | none =>
+      let r := reprVal funs value
+      (setVar g "_" value, [.echo r], none)
 
 /-- compile.go: `if c.interactive && c.depth <= 1 { c.Expr(v); c.Op(PRINT_EXPR) } else { â€¦; c.Op(POP_TOP) }`
 with `depth = nest + 1` (newCompiler: depth 1 for the module, parent.depth + 1 below) -/
 def modelHook (interactive : Bool) : ExprHook := fun nest funs v g =>
   let depth := nest + 1
-  if interactive && depth â‰¤ 1 then doPrintExpr funs v g else (g, [])
+  if interactive && depth â‰¤ 1 then doPrintExpr funs v g else (g, [], none)
 
 /-- the concrete code objects of the fragment: the body of `ast.Interactive` -/
 def modelRun (body : List Stmt) (ns : NS) : NS Ã— List Out := runBody (modelHook true) fuelDefault body ns
